@@ -304,6 +304,11 @@ macro_rules! mini_alloc {
             let want_grow: usize = $grow;
             assert!(nsec == nsec0 + want_grow || (nsec == nsec0 && want_grow <= 0), "C15/C03: unexpected number of sectors after mini allocation");
             assert!(nsec - nsec0 <= want_grow, "C15: file grew more than the allocation requires");
+            if !$bare {
+                // every instance has fewer MiniFAT entries than one MiniFAT sector holds: its chain has room
+                let fatc = aacc::fat(dacc::allocator(macc::directory(&m)));
+                assert!(chain_len(fatc, macc::minifat_start_sector(&m)) == 1, "C15: the MiniFAT chain was extended although its sector had room (a free sector was consumed: repeating the cycle grows the file)");
+            }
             check_mini(&m);
             kani::cover!(true, "end");
             std::mem::forget(m);
